@@ -101,7 +101,7 @@ Proof.
     - cbn in Hk, Ho. eapply IH; eassumption. }
   destruct Hcalls as [Hfg Hbg]. split; [exact Hfg|split; [exact Hbg|]]. intros o Hr.
   destruct (history_safeX L cfg h (init_world t0 script)) as [_ H]; [intros k' e' E; discriminate|apply incl_refl|].
-  destruct (H k gq obs o Hk Ho Hr Hfg) as [E|(e & Hs & Hd & E)]; [left; exact E|right].
+  destruct (proj1 (H k gq obs o Hk Ho Hr) Hfg) as [E|(e & Hs & Hd & E)]; [left; exact E|right].
   exists e. split; [exact Hs|split; [exact E|]]. intros Hv.
   apply decision_needs_no_validation; [exact Hv|eapply Src_status; exact Hs|exact Hd].
 Qed.
